@@ -278,3 +278,184 @@ func sanitiserLoop(mk *ssa.MakeSlice, par *ssa.Parameter) (map[byte]bool, bool, 
 }
 
 func sameLin(a, b lin) bool { return sameBase(a, b) && a.off == b.off }
+
+// appendSanitiser recognises a helper of the shape
+//
+//	func f(dst []byte, src []byte) []byte { for _, c := range src { ...; dst = append(dst, c') }; return dst }
+//
+// in which c' is, for every element, either the element itself under facts that exclude CR and
+// LF, or a constant other than CR/LF chosen where the element is pinned to CR or LF. The
+// result is dst followed by the sanitised copy of src: one byte per element, in order.
+// accIdx is the accumulator parameter; returns the source parameter's index.
+func appendSanitiser(fn *ssa.Function, accIdx int) (srcIdx int, ok bool, why string) {
+	if fn == nil || fn.Blocks == nil || accIdx >= len(fn.Params) {
+		return -1, false, "no body"
+	}
+	loops := naturalLoops(fn)
+	if len(loops) != 1 {
+		return -1, false, "not exactly one loop"
+	}
+	l := loops[0]
+	// the one append
+	var app *ssa.Call
+	napp := 0
+	other := false
+	allInstrs(fn, func(ins ssa.Instruction) {
+		switch x := ins.(type) {
+		case *ssa.Call:
+			if bi, isB := x.Common().Value.(*ssa.Builtin); isB {
+				switch bi.Name() {
+				case "append":
+					napp++
+					app = x
+				case "len", "cap":
+				default:
+					other = true
+				}
+				return
+			}
+			other = true
+		case *ssa.Store:
+			// the one-element operand of append(dst, c) is built in a local array
+			if ia, isIA := x.Addr.(*ssa.IndexAddr); isIA {
+				if al, isAl := ia.X.(*ssa.Alloc); isAl && al.Comment == "varargs" {
+					return
+				}
+			}
+			other = true
+		case *ssa.Go, *ssa.Defer, *ssa.Send, *ssa.MapUpdate, *ssa.Panic:
+			other = true
+		}
+	})
+	if napp != 1 || other {
+		return -1, false, "more than the one append happens in the helper"
+	}
+	if !l.Blocks[app.Block()] {
+		return -1, false, "the append is outside the loop"
+	}
+	for _, latch := range l.Latch {
+		if !app.Block().Dominates(latch) {
+			return -1, false, "a cycle of the loop appends nothing"
+		}
+	}
+	args := app.Common().Args
+	if len(args) != 2 {
+		return -1, false, "append with other than one extra operand"
+	}
+	// append(dst, c): the variadic operand is a one-element slice literal
+	elems, isLit := arrayLitElems(args[1])
+	if !isLit || len(elems) != 1 {
+		return -1, false, "the append does not add exactly one byte"
+	}
+	// accumulator chain: append's first operand is the header phi of (param, append)
+	accPhi, isPhi := args[0].(*ssa.Phi)
+	if !isPhi || accPhi.Block() != l.Header {
+		return -1, false, "the accumulator is not carried by the loop"
+	}
+	for _, e := range accPhi.Edges {
+		if e != ssa.Value(fn.Params[accIdx]) && e != ssa.Value(app) {
+			return -1, false, "the accumulator is replaced inside the loop"
+		}
+	}
+	for _, r := range returnsOf(fn) {
+		if len(r.Results) != 1 || (r.Results[0] != ssa.Value(accPhi) && r.Results[0] != ssa.Value(fn.Params[accIdx])) {
+			return -1, false, "a return does not hand back the accumulator"
+		}
+	}
+	// the element: a load of &src[i] with i the range counter of the loop over src
+	var elem *ssa.UnOp
+	var find func(v ssa.Value, d int)
+	find = func(v ssa.Value, d int) {
+		if d > 4 || elem != nil {
+			return
+		}
+		switch x := v.(type) {
+		case *ssa.UnOp:
+			if ia, isIA := x.X.(*ssa.IndexAddr); isIA && x.Op == token.MUL {
+				if _, isPar := ia.X.(*ssa.Parameter); isPar {
+					elem = x
+				}
+			}
+		case *ssa.Phi:
+			for _, e := range x.Edges {
+				find(e, d+1)
+			}
+		case *ssa.Convert:
+			find(x.X, d+1)
+		}
+	}
+	find(elems[0], 0)
+	if elem == nil {
+		return -1, false, "the appended byte is not an element of a parameter"
+	}
+	ia := elem.X.(*ssa.IndexAddr)
+	src := ia.X.(*ssa.Parameter)
+	for i, p := range fn.Params {
+		if p == src {
+			srcIdx = i
+		}
+	}
+	// range counter: phi(-1, i+1) at the header, incremented once, bounded by len(src)
+	inc, isInc := ia.Index.(*ssa.BinOp)
+	if !isInc || inc.Op != token.ADD {
+		return -1, false, "the element index is not the range counter"
+	}
+	cphi, isCPhi := inc.X.(*ssa.Phi)
+	one, isOne := constInt(inc.Y)
+	if !isCPhi || !isOne || one != 1 || cphi.Block() != l.Header || cphi.Comment != "rangeindex" {
+		return -1, false, "the loop is not a range over the source"
+	}
+	// every appended byte is safe, and is the element wherever the element is safe
+	var check func(v ssa.Value, facts []Atom, d int) bool
+	check = func(v ssa.Value, facts []Atom, d int) bool {
+		if d > 4 {
+			return false
+		}
+		if v == ssa.Value(elem) {
+			return safeByte(elem, facts, 0)
+		}
+		if c, isC := constInt(v); isC {
+			return c != '\r' && c != '\n' && pinnedToLineBreak(elem, facts)
+		}
+		if phi, isP := v.(*ssa.Phi); isP {
+			for i, e := range phi.Edges {
+				pred := phi.Block().Preds[i]
+				fs := append(append(append([]Atom{}, facts...), factsAt(pred)...), edgeFacts(pred, succIndex(pred, phi.Block()))...)
+				if c, isC := constInt(e); isC && c != '\r' && c != '\n' && pinnedOnEveryWayInto(elem, pred, 0) {
+					continue
+				}
+				if !check(e, fs, d+1) {
+					return false
+				}
+			}
+			return len(phi.Edges) > 0
+		}
+		return false
+	}
+	if !check(elems[0], factsAt(app.Block()), 0) {
+		return -1, false, "the appended byte may be CR or LF, or differs from the element where the element is neither"
+	}
+	return srcIdx, true, ""
+}
+
+// pinnedOnEveryWayInto: block b is entered only over edges on which v is known to be CR or LF
+// (the join of "c == cr" and "c == lf" branches).
+func pinnedOnEveryWayInto(v ssa.Value, b *ssa.BasicBlock, d int) bool {
+	if d > 3 || len(b.Preds) == 0 {
+		return false
+	}
+	if pinnedToLineBreak(v, factsAt(b)) {
+		return true
+	}
+	for _, p := range b.Preds {
+		fs := append(append([]Atom{}, factsAt(p)...), edgeFacts(p, succIndex(p, b))...)
+		if pinnedToLineBreak(v, fs) {
+			continue
+		}
+		if len(p.Succs) == 1 && pinnedOnEveryWayInto(v, p, d+1) {
+			continue
+		}
+		return false
+	}
+	return true
+}
